@@ -1,0 +1,17 @@
+//go:build verif
+
+// Contracts for package main, read by the verification-condition generator in /verif/govc.
+// This file contains comments only; it is compiled only with -tags verif and adds no code.
+
+package main
+
+/*@
+// main: whatever error the application returns - in particular the error of a command whose report could not be
+// written (C17) or whose input was malformed or unreadable (C09, C10) - ends the process through log.Fatal, i.e. with
+// a non-zero exit status; no error is swallowed on the way.
+func main
+  props C17 C09 C10 C08
+  modifies *
+  modifies ghost(exitFatal, appErr, cbLen, cbErr, cbNode, cbStop, cbRet, cbLineNo, cbLine, cbHeader, cbElems, cbNElems, scRd, scPos, privLo, evOf, accKey, accP, accN, accH, bufSink, bufSticky, sinkFailed, sinkPend, prLen, prSink, prArg, prArgs, csvLen, csvW, csvN, csvRow, tnodes, tdepth, tmax, tmapOf, jlen, tvLen, tv, tseg, tvSet, procLen, procTime, procSrc, lastOpen, cfgRd)
+  ensures @error-is-fatal [C17 C09 C10] appErr != nil ==> exitFatal
+@*/
